@@ -201,7 +201,7 @@ func (g *forestGen) origins(n int, paths []lang.Path, maxLine int) reference.Ori
 		c := 1 + g.r.Intn(20)
 		rng := mkRange(pick(g.r, g.files), l, c, l, c+1+g.r.Intn(10))
 		switch g.r.Intn(8) {
-		case 0:
+		case 0, 2:
 			os = append(os, reference.PathOrigin{Range: rng, TargetAddr: addr, TargetPath: pick(g.r, paths), Constraints: g.cons()})
 		case 1:
 			os = append(os, reference.DirectOrigin{Range: rng, TargetPath: pick(g.r, paths), TargetRange: mkRange(callerSupplied, 1, 1, 1, 2)})
@@ -299,9 +299,9 @@ func allTargets(ts reference.Targets) []reference.Target {
 
 func runC11(run *Run, replay string) {
 	run.Res.Rule = "generated target forests (absolute/local/both addresses, type-aware and type-less, dynamic, nested to depth 3, overlapping top-level ranges, visible-from ranges) and origins (local/path/direct, 0-2 constraints, addresses derived from the targets or foreign) over 1-3 paths; exported matching functions compared with the model; on the decoder: for every origin position go-to-definition, then find-references at every reported definition must report that origin; distinct non-trivial = distinct (world, origin) with at least one resolved declaration"
-	n := 60
+	n := 120
 	if run.Thorough {
-		n = 1500
+		n = 3000
 	}
 	ctx := context.Background()
 	for wi := 0; wi < n; wi++ {
@@ -327,7 +327,7 @@ func runC11(run *Run, replay string) {
 			pd := w.AddPath(p.Path, schema.NewBodySchema(), map[string]string{}, nil)
 			pd.Ctx.ReferenceTargets = ts
 			pd.Ctx.ReferenceOrigins = os
-			pd.Fail = i > 0 && r.Intn(6) == 0
+			pd.Fail = i > 0 && r.Intn(3) == 0
 			pws = append(pws, pw{pd, ts, os})
 		}
 		// ---- T1: exported functions against the model
@@ -388,6 +388,45 @@ func runC11(run *Run, replay string) {
 				run.Count(fmt.Sprintf("matchwalk_candidates_%d", min(len(labels), 3)))
 			}
 		}
+		// ---- T1 on the decoder-level lookups (every world)
+		worldS := List{}
+		for _, x := range pws {
+			worldS = append(worldS, L(pathS(x.pd.Path), Bool(!x.pd.Fail), targetsS(x.ts), originsS(x.os)))
+		}
+		for _, x := range pws {
+			for k := 0; k < 3+len(x.os); k++ {
+				var pos hcl.Pos
+				file := "main.tf"
+				if k < len(x.os) {
+					pos, file = x.os[k].OriginRange().Start, x.os[k].OriginRange().Filename
+				} else {
+					pos = mkPos(1+r.Intn(14), 1+r.Intn(30))
+					file = pick(r, []string{"main.tf", "b.tf"})
+				}
+				res := safeCall("ReferenceTargetsForOriginAtPos", func() (interface{}, error) {
+					return w.Dec.ReferenceTargetsForOriginAtPos(x.pd.Path, file, pos)
+				})
+				if res.Panic == "" {
+					obs := S(T("error"))
+					if res.Err == nil {
+						l := List{}
+						for _, rt := range res.Val.(decoder.ReferenceTargets) {
+							l = append(l, L(rangeS(rt.OriginRange), Str(rt.Path.Path), rangeS(rt.Range), orangeS(rt.DefRangePtr)))
+						}
+						obs = l
+					}
+					run.Case("gotodef", []S{convTable(), worldS, pathS(x.pd.Path), Str(file), posS(pos)}, obs)
+					run.Res.Evaluations++
+				}
+				back := w.Dec.ReferenceOriginsTargetingPos(x.pd.Path, file, pos)
+				l := List{}
+				for _, b := range back {
+					l = append(l, L(Str(b.Path.Path), rangeS(b.Range)))
+				}
+				run.Case("findrefs", []S{convTable(), worldS, pathS(x.pd.Path), Str(file), posS(pos)}, l)
+				run.Res.Evaluations++
+			}
+		}
 		// ---- T3: the two lookups are inverse views (on collection-like forests only)
 		for _, x := range pws {
 			if wi%3 == 2 {
@@ -411,6 +450,26 @@ func runC11(run *Run, replay string) {
 					continue
 				}
 				rts := res.Val.(decoder.ReferenceTargets)
+				if po, ok := o.(reference.PathOrigin); ok {
+					for _, rt := range rts {
+						if rt.OriginRange == o.OriginRange() && !rt.Path.Equals(po.TargetPath) && rt.Range.Filename != callerSupplied {
+							// another origin at the same range may legitimately resolve locally: only flag
+							// when no other origin of this path shares the range
+							shared := false
+							for _, o2 := range x.os {
+								if _, isPath := o2.(reference.PathOrigin); !isPath && o2.OriginRange() == o.OriginRange() {
+									shared = true
+								}
+							}
+							if !shared {
+								run.Violate(Violation{Key: "C11/path-origin-resolved-in-wrong-path", Rule: "origins that point into another path resolve against that path's declarations",
+									Func: "Decoder.ReferenceTargetsForOriginAtPos",
+									Detail: fmt.Sprintf("path origin %s of path %s (target path %s) resolved to a declaration of path %s", Show(originS(o)), x.pd.Path.Path, po.TargetPath.Path, rt.Path.Path),
+									Replay: map[string]interface{}{"kind": "world", "seed": run.Res.Seed, "world": wi, "origin": Show(originS(o))}})
+							}
+						}
+					}
+				}
 				resolved := 0
 				for _, rt := range rts {
 					if rt.OriginRange != o.OriginRange() || rt.Range.Filename == callerSupplied || rt.DefRangePtr == nil {
